@@ -69,7 +69,15 @@ type LsLoc struct {
 	Rows []LsAccess
 }
 
+type LsCtor struct {
+	Type string
+	File string
+	Line int // first line of the composite literal
+	End  int // last line
+}
+
 type LsTable struct {
+	Ctors             []LsCtor // composite literals of the shared structs (diagnostics: matching race reports)
 	Locs              []LsLoc
 	LockNames         map[string]int
 	ImmutableCaptured int // captured variables never written after their declaration (not listed)
@@ -1650,6 +1658,7 @@ func (p *lsPkg) analyzeStructs(kernel []string, tbl *LsTable) {
 				if s == nil || strings.Contains(lsTypeName(cl.Type), ".") {
 					return true
 				}
+				tbl.Ctors = append(tbl.Ctors, LsCtor{Type: s.name, File: rel, Line: line(cl.Pos()), End: line(cl.End())})
 				for i, e := range cl.Elts {
 					fname := ""
 					if kv, ok := e.(*ast.KeyValueExpr); ok {
